@@ -47,29 +47,34 @@ theorem jaroWinkler_symm (a b : Str) (boost : Rat) (p : Nat) :
   jaroWinkler_comm_of_jaro a b boost p (jaro_symm' a b)
 
 theorem stringSimilarity_symm (a b : Str) (boost : Rat) (p : Nat) :
-    stringSimilarity a b boost p = stringSimilarity b a boost p :=
-  jaroWinkler_comm_of_jaro _ _ boost p (jaro_symm' _ _)
+    stringSimilarity a b boost p = stringSimilarity b a boost p := stringSimilarity_comm a b boost p
 
 theorem stringSimilarity_bounds (a b : Str) (boost : Rat) (p : Nat) (hp : p ≤ 10) :
     0 ≤ stringSimilarity a b boost p ∧ stringSimilarity a b boost p ≤ 1 :=
   stringSimilarity_bounds' a b boost p hp
 
-/-
-  Full statement (false of the code, defect 23):
-    theorem identity_is_one (a : Str) (h : a ≠ []) : stringSimilarity a a boost p = 1
-  A name made only of characters outside [a-z0-9 ] after lower-casing normalises to the empty
-  string and scores 0.  Proved under the explicit guard, refuted at the witness.
--/
+/-- identical names score 1 — every name of which something is left after trimming white space
+    (`CleanSpace`), in any script.  Since the fix "a name written outside a-z and 0-9 is similar
+    to itself"; before it a name that normalises to nothing (王小明, "...") scored 0 against
+    itself (defect 23).  Blank names (white space only) are empty after trimming and score 0:
+    they are not names. -/
+theorem identity_is_one (a : Str) (boost : Rat) (p : Nat) (h : Gedcom.cleanSpace a ≠ []) :
+    stringSimilarity a a boost p = 1 := stringSimilarity_self' a boost p h
 
-/-- identical names score 1 whenever something of the name is left after normalisation -/
-theorem identity_is_one_partial (a : Str) (boost : Rat) (p : Nat) (h : cleanName a ≠ []) :
-    stringSimilarity a a boost p = 1 := jaroWinkler_self' _ boost p h
+/-- in particular every non-empty name that neither starts nor ends with white space and has no
+    double space — e.g. every NAME value a decoded file can contain after `CleanSpace` -/
+theorem identity_is_one_clean (a : Str) (boost : Rat) (p : Nat) (h : a ≠ []) (hc : Gedcom.cleanSpace a = a) :
+    stringSimilarity a a boost p = 1 := identity_is_one a boost p (by rw [hc]; exact h)
 
-/-- "王小明" (UTF-8) compared with itself scores 0 -/
-theorem identity_is_one_counterexample :
-    let name : Str := [0xe7, 0x8e, 0x8b, 0xe5, 0xb0, 0x8f, 0xe6, 0x98, 0x8e]
-    name ≠ [] ∧ stringSimilarity name name 0 8 = 0 := by
-  decide +kernel
+-- regression witnesses of the old rule: "王小明" (UTF-8) and "..." now score 1 against themselves,
+-- a blank name and a non-Latin name against a Latin one still score 0
+example : stringSimilarity [0xe7, 0x8e, 0x8b, 0xe5, 0xb0, 0x8f, 0xe6, 0x98, 0x8e]
+    [0xe7, 0x8e, 0x8b, 0xe5, 0xb0, 0x8f, 0xe6, 0x98, 0x8e] 0 8 = 1 := by decide +kernel
+example : stringSimilarity [46, 46, 46] [46, 46, 46] 0 8 = 1 ∧ stringSimilarity [32, 32] [32, 32] 0 8 = 0 ∧
+    stringSimilarity [0xe7, 0x8e, 0x8b] [119, 97, 110, 103] 0 8 = 0 := by decide +kernel
+-- two different names of that kind are graded, not 0 or 1: 王小明 / 王小名
+example : stringSimilarity [0xe7, 0x8e, 0x8b, 0xe5, 0xb0, 0x8f, 0xe6, 0x98, 0x8e]
+    [0xe7, 0x8e, 0x8b, 0xe5, 0xb0, 0x8f, 0xe5, 0x90, 0x8d] 0 8 = 41 / 45 := by decide +kernel
 
 /-! ## Dates -/
 
@@ -133,10 +138,10 @@ theorem individual_missing_is_half (x : Option Indi) (o : SimOpts) :
     individualSimilarity none x o = 1 / 2 ∧ individualSimilarity x none o = 1 / 2 := by
   cases x <;> simp [individualSimilarity]
 
-/-- an individual with a name that survives normalisation and with both estimated dates scores 1
+/-- an individual with a non-blank name and with both estimated dates scores 1
     against itself (identical names and identical dates) -/
 theorem individual_self (x : Indi) (o : SimOpts) (hp : o.jaroPrefixSize ≤ 10)
-    (n : Str) (hn : n ∈ x.names) (hne : cleanName n ≠ [])
+    (n : Str) (hn : n ∈ x.names) (hne : Gedcom.cleanSpace n ≠ [])
     (b d : DateR) (hb : x.birth = some b) (hd : x.death = some d) :
     individualSimilarity (some x) (some x) o = 1 := indiSimilarity_self x o hp n hn hne b d hb hd
 
